@@ -36,8 +36,12 @@ V ==
             THEN <<"REJECT", "runs-differ-across-hash-seeds-or-processes @ " \o T.runs[CHOOSE r \in R : T.runs[r].steps # T.runs[1].steps].env>>
        ELSE <<"ACCEPT", "">>
 CliV == IF \E i \in DOMAIN T.outs : T.outs[i] # T.outs[1] THEN <<"REJECT", "command-output-differs-across-hash-seeds">> ELSE <<"ACCEPT", "">>
+\* kind = "plaincall": a documented call with a mutable plain argument (a set of names, a list of triples, tables)
+PlainV == IF T.arg_after # T.arg_before THEN <<"REJECT", "argument-changed-by-a-pure-call @ " \o T.call>>
+          ELSE IF T.again # T.result THEN <<"REJECT", "equal-calls-give-different-results @ " \o T.call>>
+          ELSE <<"ACCEPT", "">>
 JInit == tid \in 1..Len(Traces) /\ step = 0 /\ verdict = <<"pending", "">> /\ pool = <<>> /\ hist = <<>>
-Judge == step = 0 /\ step' = 1 /\ verdict' = (IF T.kind = "purity" THEN V ELSE CliV) /\ UNCHANGED <<tid, pool, hist>>
+Judge == step = 0 /\ step' = 1 /\ verdict' = (IF T.kind = "purity" THEN V ELSE IF T.kind = "plaincall" THEN PlainV ELSE CliV) /\ UNCHANGED <<tid, pool, hist>>
 JSpec == JInit /\ [][Judge]_<<tid, step, verdict, pool, hist>>
 Out == step = 1 => PrintT("V|" \o ToString(tid) \o "|" \o verdict[1] \o "|" \o verdict[2])
 =============================================================================
